@@ -216,9 +216,9 @@ def validate_positive_float(value, param_name, optional=False, allow_inf=False):
     return value
 
 
-def validate_float(value, param_name, optional=False):
+def validate_float(value, param_name, optional=False, allow_inf=False):
     """
-    Validates if the input is a float or can be converted to a float.
+    Validates if the input is a finite float or can be converted to a finite float.
 
     Parameters
     ----------
@@ -229,6 +229,8 @@ def validate_float(value, param_name, optional=False):
     optional : bool, optional
         If True and the input is None, None will be returned. Otherwise, if the input is None,
         it raises an error. By default, False.
+    allow_inf : bool, optional
+        Whether positive or negative infinity is an acceptable value. Default is False.
 
     Returns
     -------
@@ -238,8 +240,8 @@ def validate_float(value, param_name, optional=False):
     Raises
     ------
     ValueError
-        If the input is not a float, integer, or a one-element array, or if the input is None and
-        optional=False.
+        If the input is not a float, integer, or a one-element array, if it is NaN or
+        (unless allow_inf=True) infinite, or if the input is None and optional=False.
     """
     if value is None:
         if optional:
@@ -263,6 +265,10 @@ def validate_float(value, param_name, optional=False):
 
     if _isnan_scalar(value, param_name):
         raise ValueError(f"'{param_name}' should be a non-NaN float number")
+
+    if isinf(value) and not allow_inf:
+        raise ValueError(f"'{param_name}' should be a finite float number")
+
     return value
 
 
